@@ -713,14 +713,27 @@ func (s *c07Sys) env() string {
 	return "env:second-writer:" + strings.Join(ks, "+")
 }
 
-// vkey: clause + device type / resource / direction / shape + environment class. Histories in which a pod name was
-// re-created before the old incarnation's delete was delivered form one witness class per clause (all symptoms there
-// come from the per-name bookkeeping), so the details are left to What.
+// vkey: clause + device type / resource / direction / shape + environment class.
 func (s *c07Sys) vkey(clause string, extra ...string) string {
-	if s.taint["name-reuse"] {
-		return "C07|" + clause + "|" + s.env()
-	}
 	return "C07|" + clause + "|" + strings.Join(extra, "|") + "|" + s.env()
+}
+
+// classify: histories in which a pod name was re-created before the old incarnation's delete was delivered form two
+// witness classes (ledger state / allocation verdict): every symptom there comes from the per-name bookkeeping, and
+// which symptoms show up depends on depth. The clause-level key moves into What.
+func (s *c07Sys) classify(viol []mc.Violation) []mc.Violation {
+	if !s.taint["name-reuse"] {
+		return viol
+	}
+	for i := range viol {
+		class := "C07|state|ledger-diverges-from-live-pods|" + s.env()
+		if strings.HasPrefix(viol[i].Key, "C07|alloc|") {
+			class = "C07|alloc|wrong-verdict|" + s.env()
+		}
+		viol[i].What = "[" + viol[i].Key + "] " + viol[i].What
+		viol[i].Key = class
+	}
+	return viol
 }
 
 // alloc = what Plugin.allocate (called from Reserve) does, followed by Plugin.Reserve's commit.
@@ -1063,7 +1076,7 @@ func (s *c07Sys) Apply(opi int, check bool) (bool, []mc.Violation) {
 			delete(s.excused, d)
 		}
 	}
-	return true, s.gate(s.foreign(viol))
+	return true, s.gate(s.classify(s.foreign(viol)))
 }
 
 var c07DiagSeen sync.Map
@@ -1348,7 +1361,7 @@ func (s *c07Sys) Invariants() []mc.Violation {
 	if len(vfKeys) > 0 {
 		s.count("states_with_vfs_held", 1)
 	}
-	viol = s.gate(s.foreign(viol))
+	viol = s.gate(s.classify(s.foreign(viol)))
 	s.flush()
 	return viol
 }
@@ -1455,14 +1468,14 @@ func c07Cfgs(env *mc.Env) []*c07Cfg {
 	// the largest part comes last: it inherits whatever time the others leave
 	return []*c07Cfg{
 		{name: "hist-gpu2-second-writer", gpus: 2, topo: true, scorer: "", filtered: true, shapes: []string{"W1", "F50"},
-			variants: gpuVariants[:2], pods: 2, external: true, depthQ: 4, depthT: 6, share: 0.06},
+			variants: gpuVariants[:2], pods: 2, external: true, depthQ: 4, depthT: 8, share: 0.06},
 		{name: "hist-gpu3-notopo", gpus: 3, topo: false, scorer: "least", filtered: false, shapes: []string{"W1", "W2", "F50", "M2x50", "B4G"},
-			variants: []c07Variant{base, gpuVariants[1], gpuVariants[2], {"gpu1-zero-amounts", c07VZero, g1}}, pods: 3, depthQ: 4, depthT: 6, share: 0.2},
+			variants: []c07Variant{base, gpuVariants[1], gpuVariants[2], {"gpu1-zero-amounts", c07VZero, g1}}, pods: 3, depthQ: 4, depthT: 8, share: 0.2},
 		{name: "hist-gpu2-rdma2-vf", gpus: 2, topo: true, rdma: 2, scorer: "least", filtered: true, shapes: []string{"R1VF", "G1R1", "G50R1", "R100", "R200"},
 			variants: []c07Variant{base, {"rdma1-unhealthy", c07VUnhealthy, r1}, {"rdma1-removed", c07VRemoved, r1}, {"gpu1-unhealthy", c07VUnhealthy, g1}},
-			pods:     3, depthQ: 4, depthT: 6, share: 0.24},
+			pods:     3, depthQ: 4, depthT: 8, share: 0.24},
 		{name: "hist-gpu2", gpus: 2, topo: true, scorer: "most", filtered: true, shapes: []string{"W1", "W2", "F50", "F25", "M2x50"},
-			variants: gpuVariants, pods: 3, unreserve: true, depthQ: 6, depthT: 8, share: 0.5},
+			variants: gpuVariants, pods: 3, unreserve: true, depthQ: 6, depthT: 12, share: 0.5},
 	}
 }
 
@@ -1470,7 +1483,7 @@ func c07Cfgs(env *mc.Env) []*c07Cfg {
 func c07ReuseCfgs(env *mc.Env) []*c07Cfg {
 	g1 := c07Dev{c07GPU, 1}
 	return []*c07Cfg{{name: "reuse-gpu2", gpus: 2, topo: true, scorer: "least", filtered: true, shapes: []string{"W1", "F50"},
-		variants: []c07Variant{{"base", c07VBase, c07Dev{}}, {"gpu1-unhealthy", c07VUnhealthy, g1}}, pods: 2, reuse: true, unreserve: true, depthQ: 4, depthT: 6, share: 0.9}}
+		variants: []c07Variant{{"base", c07VBase, c07Dev{}}, {"gpu1-unhealthy", c07VUnhealthy, g1}}, pods: 2, reuse: true, unreserve: true, depthQ: 4, depthT: 8, share: 0.9}}
 }
 
 func TestVerifC07Hist(t *testing.T) {
